@@ -399,6 +399,8 @@ def parse_run(lines):
             R["nq"], R["polls"] = int(d["n"]), int(d["polls"])
         elif k == "q":
             R["queries_log"].append((t[1] == "1", [b2f(x) for x in t[2:]]))
+        elif k == "qb":
+            R.setdefault("base_queries_log", []).append((t[1] == "1", [b2f(x) for x in t[2:]]))
         elif k == "pdata":
             R["pdata"] = kv(t[1:])
         elif k == "draw":
